@@ -341,9 +341,10 @@ def plan_C12(ctx):
 OSS_RULE = ("A: every history of <= MaxLen calls on an operation schema and its environment (InsertBase, InsertOperation incl. refused ones, "
             "Erase incl. non-leaves, ConnectNew = the environment creates a source and the pictogram is connected to it, Edit = the user "
             "changes the schema held by a source (base set added / removed, text only, a term added to a result), Save = the source "
-            "manager announces the pending change, InitFor merge / synthesis with and without equation table, Execute, ExecuteAll), from "
+            "manager announces the pending change, InitFor merge / synthesis with and without equation table, Execute, ExecuteAll, "
+            "Lock = the environment makes a result source read-only), from "
             "the presets 'empty', 'chain' (l2 = op(op(b1,b2), b3)), 'diamond' (top = op(op(b1,b2), op(b2,b3))), 'synt' (equation table, "
-            "grandchild over a shared base); generated by TLC from OSS.tla with the predicted pictograms, parents, statuses, flags and "
+            "grandchild over a shared base), 'stale' (chain with an outdated l2 whose source is read-only); generated by TLC from OSS.tla with the predicted pictograms, parents, statuses, flags and "
             "contents after the last call and after announcing everything.  Structure and Fresh (C19 on the model) are TLC invariants.  "
             "Replayed on a real OSSchema with upstream's FakeSourceManager as environment: structure invariants after every call "
             "(two distinct existing parents, acyclic, one grid cell, one handle, only leaves erased), after every successful Execute the "
@@ -360,7 +361,7 @@ def plan_C19(ctx):
                        "a parent re-connected to another source with the same formal content leaves its children done (the statement speaks of changes that alter the formal content); counted, not reported",
                        "grid coordinates are not modelled: one distinct cell per pictogram is checked on the implementation"]
     ctx.constants = {}
-    for pr in ("chain", "diamond", "synt", "empty"):
+    for pr in ("chain", "diamond", "synt", "stale", "empty"):
         cfg = "Gen_OSS_%s_%s.cfg" % ("q" if ctx.quick else "t", pr)
         ctx.constants[cfg] = open(os.path.join(vcore.TLA, cfg)).read().split("SPECIFICATION")[0].split()
         ctx.replay("Gen_OSS.tla", cfg, h, [], tag=cfg[:-4], timeout=3400, xss="64m", xmx="16g")
